@@ -40,6 +40,25 @@ def rand_manifest(rng, big=False, over=None):
     for _ in range(rng.choice([0, 1, 2, 3, 255 if big else 4])):
         m["hints"].append({"scheme": rb(rng, rng.choice([0, 0, 3, 7, 255])), "transport": rb(rng, rlen8(rng)),
                            "endpoint": rb(rng, rlen16(rng, False)), "priority": rng.randrange(256)})
+    # scheme / transport pairs that are related (equal, equal up to letter case, prefix of each other): the scheme is a
+    # field of its own and must come back byte for byte unless it was empty
+    if rng.random() < 0.5 and len(m["hints"]) < 250:
+        w = list(rng.choice([b"tcp", b"control", b"relay", b"transport", b"Udp", b"a", b"Z"]))
+        k = rng.randrange(6)
+        if k == 0:
+            sch, tr = list(w), list(w)
+        elif k == 1:
+            sch, tr = [c ^ 0x20 for c in w], list(w)
+        elif k == 2:
+            sch, tr = list(w), [c ^ 0x20 for c in w]
+        elif k == 3:
+            sch, tr = [w[0] ^ 0x20] + w[1:], list(w)
+        elif k == 4:
+            sch, tr = w[:-1] or [120], list(w)
+        else:
+            sch, tr = list(w), w + [115]
+        m["hints"].insert(rng.randrange(len(m["hints"]) + 1),
+                          {"scheme": sch, "transport": tr, "endpoint": rb(rng, rng.choice([0, 9])), "priority": rng.randrange(256)})
     for _ in range(rng.choice([0, 1, 2, 255 if big else 3])):
         m["fallbacks"].append({"uri": rb(rng, rlen16(rng, False)), "priority": rng.randrange(256)})
     if over == "shards":
@@ -56,6 +75,9 @@ def rand_manifest(rng, big=False, over=None):
         m["hints"].append({"scheme": rb(rng, 256), "transport": [1], "endpoint": [], "priority": 1})
     elif over == "hint_transport_as_scheme":
         m["hints"].append({"scheme": [], "transport": rb(rng, 256), "endpoint": [], "priority": 1})
+    elif over == "hint_transport":
+        m["hints"].append({"scheme": rb(rng, rng.choice([1, 7, 255])), "transport": rb(rng, rng.choice([256, 257, 300, 4096, 65535, 65536])),
+                           "endpoint": [], "priority": 1})
     elif over == "hint_endpoint":
         m["hints"].append({"scheme": [2], "transport": [1], "endpoint": rb(rng, 65536), "priority": 1})
     elif over == "fallback_count":
@@ -67,7 +89,7 @@ def rand_manifest(rng, big=False, over=None):
     return m
 
 
-OVERS = ["shards", "meta_count", "meta_key", "meta_value", "hint_count", "hint_scheme", "hint_transport_as_scheme",
+OVERS = ["shards", "meta_count", "meta_key", "meta_value", "hint_count", "hint_scheme", "hint_transport_as_scheme", "hint_transport",
          "hint_endpoint", "fallback_count", "fallback_uri", "advisory"]
 
 
